@@ -19,9 +19,11 @@
      WTop      loop head: RLock; if state == hotRestartState { sleep; continue }; pool := sm.pools[id]
      WSelect   select { <-pool.Session().CloseChan() ; <-sm.ctx.Done() }
      WWait     pool closed; select { <-sm.ctx.Done() ; <-rebuildTimer.C }
-     WCompare  timer fired: sm.Lock(); sm.pools[id] != pool ? break : newClientSession(...); sm.Unlock()
-               (identity check and dial in ONE critical section, after the wait)
-     WStore    the dial succeeded, the lock is released: session.manager = sm; pool.session.Store(session)
+     WCompare  timer fired: sm.Lock(); sm.pools[id] != pool ? break : newClientSession(...);
+               session.manager = sm; pool.session.Store(session); sm.Unlock()
+               (identity check, dial and store in ONE critical section, after the wait)
+     WStore    only in the variant [store_late] (the order before the repair: Store AFTER sm.Unlock()): the dial
+               succeeded, the lock is released, the session is not stored yet
      WExit     returned
    Timers: [TimerFires] may happen at any step while the manager is not closed.  After cancel the
    timer case can only win the select if it fired before the cancel, which is the interleaving
@@ -59,10 +61,12 @@ Record rstate := {
   watchers : list watcher;
   created : nat;                   (* sessions created by watchers *)
   bad : nat;                       (* ... of which stored into a pool object that was not sm.pools[id] any more *)
-  cprog : list cstep;
-  check_early : bool }.            (* false = the code: the identity check is made AFTER the rebuild wait, in the critical
+  cprog : list cstep;              (* what SessionManager.Close still has to do (the whole body before it is called) *)
+  check_early : bool;              (* false = the code: the identity check is made AFTER the rebuild wait, in the critical
                                       section of the dial.  true = a variant that checks before the wait and dials
-                                      unconditionally afterwards (kept to show what the theorems depend on) *)            (* what SessionManager.Close still has to do (the whole body before it is called) *)
+                                      unconditionally afterwards (kept to show what the theorems depend on) *)
+  store_late : bool }.             (* false = the code: pool.session.Store(session) inside the critical section of the
+                                      dial.  true = the order before the repair: Store after sm.Unlock() *)
 
 Inductive revent :=
 | WLoad (id : nat)
@@ -70,7 +74,7 @@ Inductive revent :=
 | WakeCtx (id : nat)
 | TimerFires (id : nat)
 | Compare (id : nat) (ok : bool)           (* the critical section after the wait; ok = newClientSession succeeds *)
-| Store (id : nat)                         (* pool.session.Store(session), after sm.Unlock() *)
+| Store (id : nat)                         (* variant [store_late] only: pool.session.Store(session) after sm.Unlock() *)
 | SessionLost (o : nat)                    (* the session of pool object o dies by itself *)
 | HREvent (i : nat) (e : Z) (ok : bool)    (* handleSessionManagerHotRestart for sessionID i, epoch e *)
 | HRTick | HRTimeout
@@ -99,7 +103,7 @@ Definition watcher_of (s : rstate) (id : nat) : watcher := nth id (watchers s) {
 
 Definition set_watcher (s : rstate) (id : nat) (w : watcher) : rstate :=
   {| objs := objs s; pools := pools s; reserve := reserve s; r_state := r_state s; r_epoch := r_epoch s;
-     closed := closed s; watchers := upd (watchers s) id w; created := created s; bad := bad s; cprog := cprog s; check_early := check_early s |}.
+     closed := closed s; watchers := upd (watchers s) id w; created := created s; bad := bad s; cprog := cprog s; check_early := check_early s; store_late := store_late s |}.
 
 Definition in_range (s : rstate) (id : nat) : bool := (id <? length (watchers s))%nat.
 
@@ -135,7 +139,7 @@ Definition hr_event (s : rstate) (i : nat) (e : Z) (ok : bool) : rstate :=
     let s1 := if r_state s =? st_hr then s
               else {| objs := kill_reserved (reserve s) (objs s); pools := pools s;
                       reserve := repeat None (length (pools s)); r_state := st_hr; r_epoch := e;
-                      closed := closed s; watchers := watchers s; created := created s; bad := bad s; cprog := cprog s; check_early := check_early s |} in
+                      closed := closed s; watchers := watchers s; created := created s; bad := bad s; cprog := cprog s; check_early := check_early s; store_late := store_late s |} in
     match nth_error (reserve s1) i with
     | Some (Some _) => s1
     | _ =>
@@ -144,7 +148,7 @@ Definition hr_event (s : rstate) (i : nat) (e : Z) (ok : bool) : rstate :=
                 pools := upd (pools s1) i (length (objs s1));
                 reserve := upd (reserve s1) i (Some (pool_of s1 i));
                 r_state := r_state s1; r_epoch := r_epoch s1; closed := closed s1;
-                watchers := watchers s1; created := created s1; bad := bad s1; cprog := cprog s1; check_early := check_early s1 |}
+                watchers := watchers s1; created := created s1; bad := bad s1; cprog := cprog s1; check_early := check_early s1; store_late := store_late s1 |}
     end.
 
 Definition r_apply (s : rstate) (ev : revent) : rstate :=
@@ -174,11 +178,22 @@ Definition r_apply (s : rstate) (ev : revent) : rstate :=
         match nth_error (objs s) (w_pool w) with
         | None => set_watcher s id {| w_pc := WTop; w_pool := w_pool w |}
         | Some p =>
-            {| objs := upd (objs s) (w_pool w) {| o_epoch := o_epoch p; o_alive := o_alive p; o_slot := o_slot p;
-                                                  o_by := o_by p; o_pending := Some (r_epoch s) |};
-               pools := pools s; reserve := reserve s; r_state := r_state s; r_epoch := r_epoch s; closed := closed s;
-               watchers := upd (watchers s) id {| w_pc := WStore; w_pool := w_pool w |};
-               created := S (created s); bad := bad s; cprog := cprog s; check_early := check_early s |}
+            if store_late s then
+              {| objs := upd (objs s) (w_pool w) {| o_epoch := o_epoch p; o_alive := o_alive p; o_slot := o_slot p;
+                                                    o_by := o_by p; o_pending := Some (r_epoch s) |};
+                 pools := pools s; reserve := reserve s; r_state := r_state s; r_epoch := r_epoch s; closed := closed s;
+                 watchers := upd (watchers s) id {| w_pc := WStore; w_pool := w_pool w |};
+                 created := S (created s); bad := bad s; cprog := cprog s; check_early := check_early s;
+                 store_late := store_late s |}
+            else
+              (* session.manager = sm; pool.session.Store(session) — still under sm's lock *)
+              {| objs := upd (objs s) (w_pool w) {| o_epoch := r_epoch s; o_alive := true; o_slot := o_slot p;
+                                                    o_by := 2; o_pending := None |};
+                 pools := pools s; reserve := reserve s; r_state := r_state s; r_epoch := r_epoch s; closed := closed s;
+                 watchers := upd (watchers s) id {| w_pc := WTop; w_pool := w_pool w |};
+                 created := S (created s);
+                 bad := if (w_pool w =? pool_of s id)%nat then bad s else S (bad s); cprog := cprog s;
+                 check_early := check_early s; store_late := store_late s |}
         end
   | Store id =>
       let w := watcher_of s id in
@@ -192,21 +207,21 @@ Definition r_apply (s : rstate) (ev : revent) : rstate :=
              watchers := upd (watchers s) id {| w_pc := WTop; w_pool := w_pool w |};
              created := created s;
              bad := if (w_pool w =? pool_of s id)%nat then bad s else S (bad s); cprog := cprog s;
-             check_early := check_early s |}
+             check_early := check_early s; store_late := store_late s |}
       end
   | SessionLost o =>
       {| objs := kill_obj (objs s) o; pools := pools s; reserve := reserve s; r_state := r_state s; r_epoch := r_epoch s;
-         closed := closed s; watchers := watchers s; created := created s; bad := bad s; cprog := cprog s; check_early := check_early s |}
+         closed := closed s; watchers := watchers s; created := created s; bad := bad s; cprog := cprog s; check_early := check_early s; store_late := store_late s |}
   | HREvent i e ok => hr_event s i e ok
   | HRTick =>
       if (count_some (reserve s) =? length (pools s))%nat then
         {| objs := objs s; pools := pools s; reserve := reserve s; r_state := st_default; r_epoch := r_epoch s;
-           closed := closed s; watchers := watchers s; created := created s; bad := bad s; cprog := cprog s; check_early := check_early s |}
+           closed := closed s; watchers := watchers s; created := created s; bad := bad s; cprog := cprog s; check_early := check_early s; store_late := store_late s |}
       else s
   | HRTimeout =>
       {| objs := kill_reserved (reserve s) (objs s); pools := pools s; reserve := repeat None (length (pools s));
          r_state := st_default; r_epoch := r_epoch s; closed := closed s; watchers := watchers s;
-         created := created s; bad := bad s; cprog := cprog s; check_early := check_early s |}
+         created := created s; bad := bad s; cprog := cprog s; check_early := check_early s; store_late := store_late s |}
   | CloseStep =>
       match cprog s with
       | [] => s
@@ -214,15 +229,15 @@ Definition r_apply (s : rstate) (ev : revent) : rstate :=
           match c with
           | CCancel =>
               {| objs := objs s; pools := pools s; reserve := reserve s; r_state := r_state s; r_epoch := r_epoch s;
-                 closed := true; watchers := watchers s; created := created s; bad := bad s; cprog := rest; check_early := check_early s |}
+                 closed := true; watchers := watchers s; created := created s; bad := bad s; cprog := rest; check_early := check_early s; store_late := store_late s |}
           | CWait =>
               {| objs := objs s; pools := pools s; reserve := reserve s; r_state := r_state s; r_epoch := r_epoch s;
-                 closed := closed s; watchers := watchers s; created := created s; bad := bad s; cprog := rest; check_early := check_early s |}
+                 closed := closed s; watchers := watchers s; created := created s; bad := bad s; cprog := rest; check_early := check_early s; store_late := store_late s |}
           | CCloseAll =>
               {| objs := kill_reserved (reserve s) (kill_reserved (map Some (pools s)) (objs s)); pools := pools s;
                  reserve := repeat None (length (pools s));
                  r_state := r_state s; r_epoch := r_epoch s; closed := closed s; watchers := watchers s;
-                 created := created s; bad := bad s; cprog := rest; check_early := check_early s |}
+                 created := created s; bad := bad s; cprog := rest; check_early := check_early s; store_late := store_late s |}
           end
       end
   | GetStreamR _ => s
@@ -236,11 +251,11 @@ Inductive gs_outcome := GsOk | GsErr | GsBlocked.
 Definition get_stream_r (s : rstate) (k : nat) : gs_outcome :=
   if obj_alive s (pool_of s k) then GsOk else GsErr.
 
-Definition r_init_gen (prog : list cstep) (early : bool) (n : nat) : rstate :=
+Definition r_init_gen (prog : list cstep) (early late : bool) (n : nat) : rstate :=
   {| objs := map (fun i => new_obj 0 i 0) (seq 0 n); pools := seq 0 n; reserve := repeat None n;
      r_state := st_default; r_epoch := 0; closed := false;
-     watchers := repeat {| w_pc := WTop; w_pool := 0%nat |} n; created := 0; bad := 0; cprog := prog; check_early := early |}.
-Definition r_init_prog (prog : list cstep) (n : nat) : rstate := r_init_gen prog false n.
+     watchers := repeat {| w_pc := WTop; w_pool := 0%nat |} n; created := 0; bad := 0; cprog := prog; check_early := early; store_late := late |}.
+Definition r_init_prog (prog : list cstep) (n : nat) : rstate := r_init_gen prog false false n.
 Definition r_init (n : nat) : rstate := r_init_prog close_prog n.
 
 Definition pending (s : rstate) : nat :=
